@@ -175,6 +175,14 @@ func Basket() Spec {
 		fix(Retire(C, B1, "1")),
 		fix(Cancel(B, B2, "1")),
 		MintFresh(A, B1, C, "2", "0"),
+		// a sibling batch with EXACTLY the start date of b1 (2020-01-01), deposited next to it
+		fix(CreateBatch(A, "C01-001", date(2020, 1, 1), date(2021, 6, 1), true, nil, Iss(B, "3", "0"))),
+		fix(Put(B, NCT, BC("C01-001-20200101-20210601-003", "1"))),
+		// a basket created with the deprecated exponent field set (an old client would send it), then used
+		fix(Msg("basket.Create(A,LEG,deprecated-exponent=3)", &baskettypes.MsgCreate{Curator: A.String(), Name: "LEG", Exponent: 3, DisableAutoRetire: true, CreditTypeAbbrev: "C",
+			AllowedClasses: []string{"C01"}, Fee: sdk.NewCoins(coin("uregen", 10))})),
+		fix(Put(B, "eco.uC.LEG", BC(B1, "1.5"))),
+		fix(Take(B, "eco.uC.LEG", "500000", false)),
 		// the curator changes hands (the basket row is rewritten) while the basket holds credits
 		fix(Msg("UpdateCurator(A,NCT->B)", &baskettypes.MsgUpdateCurator{Curator: A.String(), Denom: NCT, NewCurator: B.String()})),
 	}
@@ -271,7 +279,16 @@ func Market() Spec {
 		fix(Send(B, C, B1, "1", "0")),
 		fix(Retire(C, B1, "1")),
 	}
-	return Spec{Name: "market", Seeds: []explore.Seed{PreparedSeed("prepared"), FreshCoreSeed()},
+	// two more allowed denoms, one a string prefix of the other; the market of the LONGER one is created first
+	good = append(good,
+		fix(Sell(C, B2, "0.5", coin("uusdc", 5), true, nil)),
+		fix(Sell(B, B1, "0.5", coin("uusd", 5), true, nil)),
+	)
+	prepared := PreparedSeed("prepared",
+		Msg("gov:allow-uusdc", &markettypes.MsgAddAllowedDenom{Authority: G.String(), BankDenom: "uusdc", DisplayDenom: "usdc", Exponent: 6}),
+		Msg("gov:allow-uusd", &markettypes.MsgAddAllowedDenom{Authority: G.String(), BankDenom: "uusd", DisplayDenom: "usd", Exponent: 6}))
+	prepared.Name = "prepared"
+	return Spec{Name: "market", Seeds: []explore.Seed{prepared, FreshCoreSeed()},
 		Events: append(good, bad...), DepthQuick: 4, DepthThor: 5, ExpectFail: expectFail(names(bad...)...), MinStates: 500}
 }
 
@@ -293,11 +310,13 @@ func BridgeSpec() Spec {
 		fix(BridgeReceive(A, "C01", "VCS-2", C, "2", date(2021, 6, 1), date(2022, 1, 1), tx(3, "polygon", Contract2))),   // new contract => new project+batch
 		fix(BridgeReceive(A, "C01", "VCS-1", B, Eps, date(2020, 1, 1), date(2022, 1, 1), tx(2, "Polygon", Contract1))),   // case variant of source
 		fix(Mint(A, B3, C, "1", "0.5", tx(4, "polygon", ""))),
-		fix(Mint(A, B1, C, "1", "0", tx(2, "polygon", ""))),        // same id as a BridgeReceive event: whichever comes first wins
-		fix(Mint(A, B3, C, "1", "0", tx(2, "Polygon", ""))),        // the capitalised spelling, same id as the capitalised receipt
-		fix(Mint(A, B3, C, "1", "0", tx(6, "polygon", Contract2))), // a direct mint into the bound batch naming ANOTHER contract
-		fix(Mint(A, B1, C, "1", "0", tx(7, "polygon", Contract2))), // ... and into a native batch
-		fix(Mint(A, B3, C, "1", "0", tx(3, "polygon", ""))),        // b3 lives in project key 3 of class key 1; tx 3 is also used by a BridgeReceive and a CreateBatch
+		fix(Mint(A, B1, C, "1", "0", tx(2, "polygon", ""))),                   // same id as a BridgeReceive event: whichever comes first wins
+		fix(Mint(A, B3, C, "1", "0", tx(2, "Polygon", ""))),                   // the capitalised spelling, same id as the capitalised receipt
+		fix(Bridge(C, "polygon", Cr("C01-003-20210601-20220101-001", "0.5"))), // out of the batch bound to the SECOND contract (after the VCS-2 receipt)
+		fix(Sell(B, B3, "1", coin("uregen", 2), true, nil)),                   // the bridging holder has credits of the bridged batch on sale
+		fix(Mint(A, B3, C, "1", "0", tx(6, "polygon", Contract2))),            // a direct mint into the bound batch naming ANOTHER contract
+		fix(Mint(A, B1, C, "1", "0", tx(7, "polygon", Contract2))),            // ... and into a native batch
+		fix(Mint(A, B3, C, "1", "0", tx(3, "polygon", ""))),                   // b3 lives in project key 3 of class key 1; tx 3 is also used by a BridgeReceive and a CreateBatch
 		fix(CreateBatch(A, "C01-002", date(2022, 1, 1), date(2023, 1, 1), true, tx(3, "polygon", ""), Iss(B, "1", "0"))),
 		fix(CreateBatch(A, "C01-001", date(2022, 1, 1), date(2023, 1, 1), true, tx(5, "polygon", Contract2), Iss(B, "3", "0"))),
 		fix(CreateBatch(A2, "C02-001", date(2022, 1, 1), date(2023, 1, 1), true, tx(1, "polygon", Contract1), Iss(B, "3", "0"))), // other class: same tx+contract is fine
